@@ -73,9 +73,10 @@ class Run:
     def note(self, text: str) -> None:
         self.notes.append(text)
 
-    def error(self, text: str) -> None:
-        """The analysis could not see what it needs (exit 2)."""
-        self.errors.append(text)
+    def error(self, text: str, more: str = "") -> None:
+        """The analysis could not see what it needs (exit 2).  `error(rule, text)` is accepted
+        too."""
+        self.errors.append(f"{text}: {more}" if more else text)
 
     def info(self, key: str, value: Any) -> None:
         self.analysed[key] = value
